@@ -88,6 +88,7 @@ CHECKS = {
         "quick": {"shards": 16, "rounds": 1, "checks": 150, "timeout": 900},
         "thorough": {"shards": 16, "rounds": 6, "checks": 500, "timeout": 3000},
         "assumptions": [
+            "one seq case in six runs a window of steps under a process file-size limit (RLIMIT_FSIZE; synchronous logging, single-record writes only): a write that fails there is not acknowledged and nothing is expected of it, the history goes on; other I/O errors are not injected",
             "single client, background flush quiesced between steps",
             "strict increase across a crash is demanded only under SyncImmediate; crash = process death at hook sites",
         ],
